@@ -58,7 +58,7 @@ func DefaultWeights() Weights {
 		"totpsetup": 3, "totpconfirm": 3, "totpremove": 1, "totpvalidate": 5, "totpgetsetup": 1,
 		"smssetup": 3, "smsconfirm": 3, "smsremove": 1, "smsvalidate": 6, "smsgetsetup": 1,
 		"regen": 1, "vstart": 2, "vend": 2, "prot": 5, "open": 1, "lockmw": 1, "confirmmw": 1, "rootmw": 1,
-		"adv": 6, "keepalive": 2, "xfactor": 2, "apilock": 1, "apiunlock": 1, "updpw": 1, "setcookie": 3, "stealcookie": 2,
+		"adv": 6, "keepalive": 2, "xfactor": 2, "enrolchain": 2, "recchain": 1, "apilock": 1, "apiunlock": 1, "updpw": 1, "setcookie": 3, "stealcookie": 2,
 	}
 }
 
@@ -610,6 +610,45 @@ func (g *Gen) Step() {
 		default:
 			if u := m.W.Store.Users[a2.PID]; u != nil && u.TOTPSecretKey != "" {
 				r = m.HTTP(b, "smsvalidate", Args{Code: TOTPCode(u.TOTPSecretKey)}, nil)
+			}
+		}
+	case "enrolchain":
+		// behind the e-mail authorisation gate (which random steps rarely get through): a whole
+		// enrolment in one session, then the start of a second one in the same session (is the
+		// authorisation spent by the first?).  Only in worlds with the gate on: an enrolment
+		// bcrypt-hashes ten recovery codes at the default cost, and without the gate the random
+		// steps reach it by themselves.
+		if !m.Cfg.EmailAuth {
+			break
+		}
+		m.HTTP(b, "login", Args{PID: a.PID, PW: a.PW}, nil)
+		knd := pick(g.R, []string{"totp", "sms"})
+		g.harvest(a, m.HTTP(b, "vstart", Args{Kind: knd}, nil))
+		m.HTTP(b, "vend", Args{Kind: knd, Token: m.W.B(b).Sess["twofactor_auth_token"]}, nil)
+		if knd == "sms" {
+			m.HTTP(b, "smssetup", Args{Phone: phones[0]}, nil)
+			g.harvest(a, m.HTTP(b, "smsconfirm", Args{Code: m.W.B(b).Sess["sms_secret"]}, nil))
+			m.Advance(11 * time.Second)
+			r = m.HTTP(b, "smssetup", Args{Phone: phones[1]}, nil)
+		} else {
+			m.HTTP(b, "totpsetup", Args{}, nil)
+			g.harvest(a, m.HTTP(b, "totpconfirm", Args{Code: TOTPCode(m.W.B(b).Sess["totp_secret"])}, nil))
+			r = m.HTTP(b, "totpsetup", Args{}, nil)
+		}
+		g.harvest(a, r)
+	case "recchain":
+		// a recovery code finishes a login; the same code is then offered to switch the factor off
+		if len(a.RecCodes) > 0 {
+			rc := pick(g.R, a.RecCodes)
+			m.HTTP(b, "login", Args{PID: a.PID, PW: a.PW}, nil)
+			sess := m.W.B(b).Sess
+			switch {
+			case sess["totp_pending"] == a.PID:
+				m.HTTP(b, "totpvalidate", Args{RCode: rc}, nil)
+				r = m.HTTP(b, "totpremove", Args{RCode: rc}, nil)
+			case sess["sms_pending"] == a.PID:
+				m.HTTP(b, "smsvalidate", Args{RCode: rc}, nil)
+				r = m.HTTP(b, "smsremove", Args{RCode: rc}, nil)
 			}
 		}
 	case "apilock":
